@@ -952,3 +952,371 @@ def compare_K(ctx, kind, data, line, rep):
                       f"(x1.requires_grad, x2.requires_grad, ard_num_dims, diag, last_dim_is_batch, trace_mode) = {data['cfg']}: "
                       f"regenerated condition says generic={rep}, the real forward took the "
                       f"{'generic' if data['generic'] else 'fast'} branch")
+
+
+# ------------------------------------------------------------------ L: kernel-ALGEBRA histories (operator histories on one object)
+
+def _structure(kernel):
+    out = [(nm, type(m).__name__) for nm, m in kernel.named_modules()]
+    for nm, m in kernel.named_modules():
+        if hasattr(m, "kernels"):
+            out.append((nm + ".kernels", len(m.kernels)))
+        if hasattr(m, "base_kernel"):
+            out.append((nm + ".base_kernel", type(m.base_kernel).__name__))
+    return out
+
+
+UNEQUAL_LS = [0.45, 1.3, 2.9]
+
+
+def _set_unequal(kernel, seedval, label):
+    """random parameters; every ARD lengthscale / variance gets clearly UNEQUAL entries per dimension (and per batch)"""
+    import torch
+    M = _M()
+    g = M._gen(seedval, f"uneq:{label}")
+    with torch.no_grad():
+        for p in kernel.parameters():
+            p.copy_(0.6 * torch.randn(p.shape, generator=g, dtype=torch.float64))
+        for m in kernel.modules():
+            for attr in ("lengthscale", "variance"):
+                if hasattr(m, "raw_" + attr) and getattr(m, "raw_" + attr).shape[-1] == M.D_IN and attr in ("lengthscale", "variance"):
+                    cur = getattr(m, attr)
+                    base = torch.tensor(UNEQUAL_LS, dtype=torch.float64).expand_as(cur).clone()
+                    nb = cur[..., 0].numel()
+                    fac = (1.0 + 0.37 * torch.arange(nb, dtype=torch.float64)).reshape(cur.shape[:-1] + (1,))
+                    try:
+                        setattr(m, attr, base * fac)
+                    except Exception:
+                        pass
+    kernel.double()
+    kernel.eval()
+    return kernel
+
+
+def algebra_operands():
+    import torch
+    from gpytorch import kernels as K
+    M = _M()
+    D = M.D_IN
+
+    def B(b):
+        return torch.Size(b)
+    return {
+        "rbf_ard": lambda b: K.RBFKernel(ard_num_dims=D, batch_shape=B(b)),
+        "sum2": lambda b: K.RBFKernel(ard_num_dims=D, batch_shape=B(b)) + K.MaternKernel(nu=1.5, batch_shape=B(b)),
+        "prod2": lambda b: K.RBFKernel(batch_shape=B(b)) * K.LinearKernel(ard_num_dims=D, batch_shape=B(b)),
+        "scale_matern_ard": lambda b: K.ScaleKernel(K.MaternKernel(nu=2.5, ard_num_dims=D, batch_shape=B(b)), batch_shape=B(b)),
+        "rbf_ad": lambda b: K.RBFKernel(batch_shape=B(b), active_dims=[2, 0]),
+        "sum_of_prod": lambda b: (K.RBFKernel(batch_shape=B(b)) * K.PeriodicKernel(batch_shape=B(b))) + K.LinearKernel(batch_shape=B(b)),
+        "prod_of_sum": lambda b: (K.RBFKernel(batch_shape=B(b)) + K.CosineKernel(batch_shape=B(b))) * K.MaternKernel(nu=0.5, batch_shape=B(b)),
+    }
+
+
+def algebra_ops():
+    """name -> (operation(a, b), expected dense value (Ka, Kb, result kernel) or None when only the operand is judged)"""
+    import copy
+    import torch
+    from gpytorch import kernels as K
+    M = _M()
+    return {
+        "a + b": (lambda a, b: a + b, lambda Ka, Kb, r: Ka + Kb),
+        "b + a": (lambda a, b: b + a, lambda Ka, Kb, r: Ka + Kb),
+        "a * b": (lambda a, b: a * b, lambda Ka, Kb, r: Ka * Kb),
+        "b * a": (lambda a, b: b * a, lambda Ka, Kb, r: Ka * Kb),
+        "a + a": (lambda a, b: a + a, lambda Ka, Kb, r: Ka + Ka),
+        "(a + b) + b": (lambda a, b: (a + b) + b, lambda Ka, Kb, r: Ka + Kb + Kb),
+        "AdditiveKernel(a, b)": (lambda a, b: K.AdditiveKernel(a, b), lambda Ka, Kb, r: Ka + Kb),
+        "ProductKernel(a, b)": (lambda a, b: K.ProductKernel(a, b), lambda Ka, Kb, r: Ka * Kb),
+        "ScaleKernel(a)": (lambda a, b: K.ScaleKernel(a), lambda Ka, Kb, r: r.outputscale.detach().reshape(r.outputscale.shape + (1, 1)) * Ka),
+        "AdditiveStructureKernel(a)": (lambda a, b: K.AdditiveStructureKernel(a, num_dims=M.D_IN), None),
+        "deepcopy(a)": (lambda a, b: copy.deepcopy(a), lambda Ka, Kb, r: Ka),
+        "a[0]": (lambda a, b: a[0], lambda Ka, Kb, r: Ka[0]),
+        "a[[1, 0]]": (lambda a, b: a[torch.tensor([1, 0])], lambda Ka, Kb, r: Ka[torch.tensor([1, 0])]),
+        "a.expand_batch": (lambda a, b: a.expand_batch(torch.Size([3]) + a.batch_shape), lambda Ka, Kb, r: Ka.expand(3, *Ka.shape)),
+    }
+
+
+def part_L(ctx, seedval, only=None):
+    import torch
+    import gpytorch
+    M = _M()
+    n1, n2 = 4, 3
+    ops = algebra_ops()
+    operands = algebra_operands()
+    from gpytorch import kernels as K
+    for aname, afac in operands.items():
+        for kb in ((), (2,)):
+            for oname, (op, expect) in ops.items():
+                if only is not None and (aname, list(kb), oname) != tuple(only):
+                    continue
+                if oname.startswith("a[") and not kb:
+                    continue
+                if oname == "AdditiveStructureKernel(a)" and aname in ("rbf_ard", "scale_matern_ard", "rbf_ad", "prod2"):
+                    continue                                   # ARD / active_dims kernels cannot be applied per column
+                composite = aname in ("sum2", "prod2", "sum_of_prod", "prod_of_sum")
+                if oname == "a.expand_batch" and composite:
+                    pass
+                base = {"part": "algebra-history", "operand": aname, "kernel_batch": list(kb), "op": oname}
+                tag = f"L|{aname}|{kb}|{oname}"
+                a = _set_unequal(afac(kb), seedval, f"L:a:{aname}:{kb}")
+                fresh = _set_unequal(afac(kb), seedval, f"L:a:{aname}:{kb}")
+                b = _set_unequal(K.RQKernel(ard_num_dims=M.D_IN, batch_shape=torch.Size(kb)), seedval, f"L:b:{kb}")
+                g = M._gen(seedval, f"L:{aname}:{kb}")
+                x1, x2 = M._randn(g, n1, M.D_IN), M._randn(g, n2, M.D_IN)
+                try:
+                    with torch.no_grad(), warnings.catch_warnings(), gpytorch.settings.lazily_evaluate_kernels(False):
+                        warnings.simplefilter("ignore")
+                        Ka = M._dense(fresh(x1, x2)).detach()
+                        Ka11 = M._dense(fresh(x1, x1)).detach()
+                        Kb = M._dense(b(x1, x2)).detach()
+                except Exception:
+                    ctx.count("L_cells_rejected")
+                    continue
+
+                def cmp(what, fn, want, phase):
+                    ctx.case(f"{tag}|{phase}|{what}")
+                    try:
+                        with torch.no_grad(), warnings.catch_warnings():
+                            warnings.simplefilter("ignore")
+                            got = M._dense(fn()).detach()
+                    except Exception as e:
+                        ctx.fail(f"algebra-history:{phase}:raises", f"operand {aname} kernel batch {kb}, operation `{oname}`: {what} "
+                                 f"raises {type(e).__name__}: {str(e)[:140]}", dict(base, what=what, phase=phase))
+                        return
+                    if got.shape != want.shape and got.numel() == want.numel():
+                        try:
+                            got = got.expand(want.shape)
+                        except RuntimeError:
+                            pass
+                    if not M._close(got, want):
+                        ctx.fail(f"algebra-history:{phase}", f"operand {aname} kernel batch {kb}, operation `{oname}`: {what} differs "
+                                 f"from {'the expected combination of the operands' if phase == 'result' else 'a freshly built operand'}"
+                                 f": {M._maxerr(got, want)}", dict(base, what=what, phase=phase))
+                # ---- use the operand, keep lazy tensors created BEFORE the operation
+                with torch.no_grad(), warnings.catch_warnings():
+                    warnings.simplefilter("ignore")
+                    cmp("a(x1,x2).to_dense()", lambda: a(x1, x2), Ka, "before")
+                    L0 = a(x1, x2)
+                    L1 = a(x1)
+                snap0, struct0 = _snapshot(a), _structure(a)
+                # ---- the operation
+                ctx.case(f"{tag}|operation")
+                try:
+                    with torch.no_grad(), warnings.catch_warnings():
+                        warnings.simplefilter("ignore")
+                        r = op(a, b)
+                except Exception as e:
+                    if oname == "a.expand_batch" and composite:
+                        ctx.count("L_expand_batch_composite_rejected")
+                    else:
+                        ctx.count("L_operation_rejected")
+                        ctx.notes.setdefault("L_rejections", {})[f"{aname}:{kb}:{oname}"] = f"{type(e).__name__}: {str(e)[:80]}"
+                    r = None
+                if r is not None and expect is not None:
+                    try:
+                        want = expect(Ka, Kb, r)
+                        cmp(f"({oname})(x1,x2).to_dense()", lambda: r(x1, x2), want, "result")
+                    except Exception as e:
+                        ctx.count("L_result_oracle_rejected")
+                elif r is not None:
+                    cmp(f"({oname})(x1,x2) evaluates", lambda: r(x1, x2), M._dense(r(x1, x2)).detach(), "result")
+                # ---- the operand afterwards: attributes, structure, later outputs, EARLIER lazy tensors
+                ctx.case(f"{tag}|attributes")
+                if _structure(a) != struct0:
+                    ch = [f"{p} -> {q}" for p, q in zip(struct0, _structure(a)) if p != q] or [f"{len(struct0)} -> {len(_structure(a))} modules"]
+                    ctx.fail("algebra-history:attributes:structure", f"operand {aname} kernel batch {kb}: `{oname}` changed the module tree "
+                             f"of the operand: {'; '.join(map(str, ch))[:200]}", dict(base, what="structure", phase="attributes"))
+                for key, what in _snap_diff(snap0, _snapshot(a)):
+                    ctx.fail(f"algebra-history:attributes:{key}", f"operand {aname} kernel batch {kb}: `{oname}` changed the operand: "
+                             f"{key}: {what}", dict(base, what=key, phase="attributes"))
+                dg = Ka11.diagonal(dim1=-1, dim2=-2)
+                cmp("a(x1,x2).to_dense()", lambda: a(x1, x2), Ka, "after")
+                cmp("a(x2,x1).to_dense()", lambda: a(x2, x1), Ka.mT, "after")
+                cmp("a(x1, diag=True)", lambda: a(x1, diag=True), dg, "after")
+                cmp("a(x1).diagonal()", lambda: a(x1).diagonal(dim1=-1, dim2=-2), dg, "after")
+                with gpytorch.settings.lazily_evaluate_kernels(False):
+                    cmp("eager a(x1,x2)", lambda: a(x1, x2), Ka, "after")
+                cmp("lazy tensor created before the operation .to_dense()", lambda: L0, Ka, "earlier-lazy")
+                cmp("lazy tensor created before the operation [..., 1:, :2]", lambda: L0[..., 1:, :2], Ka[..., 1:, :2], "earlier-lazy")
+                cmp("lazy a(x1) created before the operation .diagonal()", lambda: L1.diagonal(dim1=-1, dim2=-2), dg, "earlier-lazy")
+                # the result must not share state that a later change of the result would push into the operand
+                if r is not None and oname in ("a[0]", "a[[1, 0]]", "deepcopy(a)"):
+                    with torch.no_grad():
+                        for p in r.parameters():
+                            p.add_(0.25)
+                    cmp("a(x1,x2) after the parameters of the result were changed", lambda: a(x1, x2), Ka, "after")
+
+
+# ------------------------------------------------------------------ M: diag vs diagonal with UNEQUAL ARD lengthscales, every family
+
+def ard_families():
+    import torch
+    from gpytorch import kernels as K
+    M = _M()
+    D = M.D_IN
+
+    def B(b):
+        return torch.Size(b)
+    F = {
+        "rbf_ard": lambda b: K.RBFKernel(ard_num_dims=D, batch_shape=B(b)),
+        "matern05_ard": lambda b: K.MaternKernel(nu=0.5, ard_num_dims=D, batch_shape=B(b)),
+        "matern15_ard": lambda b: K.MaternKernel(nu=1.5, ard_num_dims=D, batch_shape=B(b)),
+        "matern25_ard": lambda b: K.MaternKernel(nu=2.5, ard_num_dims=D, batch_shape=B(b)),
+        "rq_ard": lambda b: K.RQKernel(ard_num_dims=D, batch_shape=B(b)),
+        "periodic_ard": lambda b: K.PeriodicKernel(ard_num_dims=D, batch_shape=B(b)),
+        "linear_ard": lambda b: K.LinearKernel(ard_num_dims=D, batch_shape=B(b)),
+        "pp1_ard": lambda b: K.PiecewisePolynomialKernel(q=1, ard_num_dims=D, batch_shape=B(b)),
+        "rbf_grad_ard": lambda b: K.RBFKernelGrad(ard_num_dims=D, batch_shape=B(b)),
+        "matern52_grad_ard": lambda b: K.Matern52KernelGrad(ard_num_dims=D, batch_shape=B(b)),
+        "rbf_gradgrad_ard": lambda b: K.RBFKernelGradGrad(ard_num_dims=D, batch_shape=B(b)),
+        "poly_grad": lambda b: K.PolynomialKernelGrad(power=2, batch_shape=B(b)),
+        "scale_rbf_grad_ard": lambda b: K.ScaleKernel(K.RBFKernelGrad(ard_num_dims=D, batch_shape=B(b)), batch_shape=B(b)),
+        "scale_matern52_grad_ard": lambda b: K.ScaleKernel(K.Matern52KernelGrad(ard_num_dims=D, batch_shape=B(b)), batch_shape=B(b)),
+        "rbf_ard_plus_matern_ard": lambda b: K.RBFKernel(ard_num_dims=D, batch_shape=B(b)) + K.MaternKernel(nu=1.5, ard_num_dims=D, batch_shape=B(b)),
+        "rbf_ard_times_linear_ard": lambda b: K.RBFKernel(ard_num_dims=D, batch_shape=B(b)) * K.LinearKernel(ard_num_dims=D, batch_shape=B(b)),
+        "multitask_rbf_ard": lambda b: K.MultitaskKernel(K.RBFKernel(ard_num_dims=D, batch_shape=B(b)), num_tasks=2, rank=1, batch_shape=B(b)),
+        "rbf_grad_ard_ad": lambda b: K.RBFKernelGrad(ard_num_dims=2, batch_shape=B(b), active_dims=[2, 0]),
+    }
+    return F
+
+
+def part_M(ctx, seedval, only=None):
+    import torch
+    import gpytorch
+    M = _M()
+    n = 3
+    for name, fac in ard_families().items():
+        for kb, bx in (((), ()), ((2,), ()), ((2,), (2,)), ((), (2,))):
+            if only is not None and (name, list(kb), list(bx)) != tuple(only):
+                continue
+            if name.startswith("multitask") and kb and tuple(bx) != tuple(kb):
+                ctx.count("M_batched_multitask_on_unbatched_inputs_skipped")    # documented Kronecker batch limitation (part B)
+                continue
+            try:
+                kernel = fac(kb)
+            except Exception as e:
+                ctx.count("M_construct_rejected")
+                continue
+            if name == "rbf_grad_ard_ad":
+                with torch.no_grad():
+                    kernel.lengthscale = torch.tensor([0.45, 2.9], dtype=torch.float64).expand_as(kernel.lengthscale).clone()
+                kernel.double()
+                kernel.eval()
+            else:
+                _set_unequal(kernel, seedval, f"M:{name}:{kb}")
+            g = M._gen(seedval, f"M:{name}:{kb}:{bx}")
+            x = M._randn(g, *bx, n, M.D_IN)
+            x2 = M._randn(g, *bx, n, M.D_IN)
+            base = {"part": "diag-ard", "kernel": name, "kernel_batch": list(kb), "x_batch": list(bx)}
+            tag = f"M|{name}|{kb}|{bx}"
+            try:
+                with torch.no_grad(), gpytorch.settings.lazily_evaluate_kernels(False), warnings.catch_warnings():
+                    warnings.simplefilter("ignore")
+                    Dxx = M._dense(kernel(x, x.clone())).detach()
+            except Exception as e:
+                ctx.count("M_cells_rejected_by_kernel")
+                ctx.notes.setdefault("M_cells_rejected", {})[f"{name}:{kb}:{bx}"] = f"{type(e).__name__}: {str(e)[:80]}"
+                continue
+            t = Dxx.shape[-1] // n
+            want = Dxx.diagonal(dim1=-1, dim2=-2)
+            try:
+                with torch.no_grad(), gpytorch.settings.lazily_evaluate_kernels(False), warnings.catch_warnings():
+                    warnings.simplefilter("ignore")
+                    D12 = M._dense(kernel(x, x2)).detach()
+            except Exception:
+                D12 = None
+            sl = slice(t, None)            # aligned with the outputs of one point
+            checks = [
+                ("kernel(x, diag=True)", lambda: kernel(x, diag=True), want),
+                ("kernel(x, x, diag=True)", lambda: kernel(x, x, diag=True), want),
+                ("kernel(x).diagonal()", lambda: kernel(x).diagonal(dim1=-1, dim2=-2), want),
+                ("kernel(x, x.clone()).diagonal()", lambda: kernel(x, x.clone()).diagonal(dim1=-1, dim2=-2), want),
+                ("kernel(x)[..., t:, t:].diagonal() (aligned slice)", lambda: kernel(x)[..., sl, sl].diagonal(dim1=-1, dim2=-2), want[..., t:]),
+                ("kernel(x).to_dense().diagonal()", lambda: M._dense(kernel(x)).diagonal(dim1=-1, dim2=-2), want),
+            ]
+            if D12 is not None:
+                w12 = D12.diagonal(dim1=-1, dim2=-2)
+                checks += [("kernel(x, x2, diag=True)", lambda: kernel(x, x2, diag=True), w12),
+                           ("kernel(x, x2).diagonal()", lambda: kernel(x, x2).diagonal(dim1=-1, dim2=-2), w12)]
+            for lazy in (True, False):
+                for what, fn, w in checks:
+                    ctx.case(f"{tag}|lazy={int(lazy)}|{what}")
+                    rep = dict(base, what=what, lazy=lazy)
+                    try:
+                        with torch.no_grad(), gpytorch.settings.lazily_evaluate_kernels(lazy), warnings.catch_warnings():
+                            warnings.simplefilter("ignore")
+                            got = M._dense(fn()).detach()
+                    except Exception as e:
+                        if "x2" in what and "only works when x1 == x2" in str(e):
+                            ctx.count("M_diag_x1_ne_x2_rejected_by_design")     # derivative kernels: documented restriction
+                            continue
+                        ctx.fail("diag-ard:raises", f"{name} (unequal ARD lengthscales) kernel batch {kb}, inputs batch {bx}, lazy={lazy}: "
+                                 f"{what} raises {type(e).__name__}: {str(e)[:140]}", rep)
+                        continue
+                    if got.shape != w.shape and got.numel() == w.numel():
+                        try:
+                            got = got.expand(w.shape)
+                        except RuntimeError:
+                            pass
+                    if not M._close(got, w):
+                        ctx.fail(f"diag-ard:{'multiout' if t > 1 else 'single'}", f"{name} (unequal ARD lengthscales) kernel batch {kb}, "
+                                 f"inputs batch {bx}, lazy={lazy}: {what} differs from the diagonal of the full matrix: {M._maxerr(got, w)}", rep)
+
+
+# ------------------------------------------------------------------ N: chunked matmul (`beta_features.checkpoint_kernel`)
+
+def part_N(ctx, seedval, only=None):
+    """`beta_features.checkpoint_kernel(k)`: the lazy tensor is multiplied chunk by chunk (`_matmul`) instead of being
+    evaluated — `K @ v` must equal `K.to_dense() @ v` for every kernel family, in particular for kernels with `active_dims`
+    (any listed order, ARD), and the kernel object must be unchanged afterwards."""
+    import torch
+    import gpytorch
+    from gpytorch import kernels as K
+    M = _M()
+    fams = dict(M.kernel_factories())
+    for ad in ([1, 0], [0, 2], [2, 0], [1]):
+        fams[f"rbf_ard_ad{ad}"] = (lambda b, ad=ad: K.RBFKernel(ard_num_dims=len(ad), active_dims=ad, batch_shape=torch.Size(b)))
+        fams[f"scale_matern_ard_ad{ad}"] = (lambda b, ad=ad: K.ScaleKernel(
+            K.MaternKernel(nu=1.5, ard_num_dims=len(ad), active_dims=ad, batch_shape=torch.Size(b)), batch_shape=torch.Size(b)))
+    n1, n2 = 5, 4
+    for name, fac in fams.items():
+        for kb in ((), (2,)):
+            t = M.MULTI_T.get(name, 1)
+            if t > 1 and kb:
+                continue
+            for split in (2, 5):
+                if only is not None and (name, list(kb), split) != tuple(only):
+                    continue
+                kernel = fac(kb)
+                g = M._gen(seedval, f"N:{name}:{kb}")
+                with torch.no_grad():
+                    for p in kernel.parameters():
+                        p.copy_(0.6 * torch.randn(p.shape, generator=g, dtype=torch.float64))
+                kernel.double()
+                kernel.eval()
+                x1, x2 = M._randn(g, n1, M.D_IN), M._randn(g, n2, M.D_IN)
+                v = M._randn(g, n2 * t, 2)
+                base = {"part": "checkpoint", "kernel": name, "kernel_batch": list(kb), "split": split}
+                try:
+                    with torch.no_grad(), warnings.catch_warnings(), gpytorch.settings.lazily_evaluate_kernels(False):
+                        warnings.simplefilter("ignore")
+                        want = M._dense(kernel(x1, x2)).detach() @ v
+                except Exception:
+                    ctx.count("N_cells_rejected")
+                    continue
+                snap0 = _snapshot(kernel)
+                ctx.case(f"N|{name}|{kb}|split={split}")
+                try:
+                    with torch.no_grad(), warnings.catch_warnings(), gpytorch.beta_features.checkpoint_kernel(split):
+                        warnings.simplefilter("ignore")
+                        got = (kernel(x1, x2) @ v).detach()
+                    if not M._close(got, want):
+                        ctx.fail("checkpoint-kernel:matmul", f"{name} kernel batch {kb}: kernel(x1,x2) @ v under "
+                                 f"beta_features.checkpoint_kernel({split}) differs from kernel(x1,x2).to_dense() @ v: "
+                                 f"{M._maxerr(got, want)}", dict(base, what="matmul"))
+                except Exception as e:
+                    ctx.fail("checkpoint-kernel:matmul:raises", f"{name} kernel batch {kb}: kernel(x1,x2) @ v under "
+                             f"beta_features.checkpoint_kernel({split}) raises {type(e).__name__}: {str(e)[:120]}", dict(base, what="matmul"))
+                for key, what in _snap_diff(snap0, _snapshot(kernel)):
+                    ctx.fail(f"checkpoint-kernel:attributes:{key}", f"{name} kernel batch {kb}: a chunked matmul under "
+                             f"checkpoint_kernel({split}) changed the kernel object: {key}: {what}", dict(base, what=key))
